@@ -59,6 +59,24 @@ def run_one(pid, x, tier, demo=True):
         res["first"] = [ln[:400] for ln in lines if ln.startswith("VIOLATION") or ln.startswith("  {")][:4]
         res["tail"] = lines[-1][:300] if lines else ""
         res["detected"] = r.returncode == 1 and res["violations"] > 0
+        # a change seeded for one property may fall under the statement of another one, too: also.txt names the
+        # checks to run when the owning check misses it
+        also = os.path.join(d, "also.txt")
+        if not res["detected"] and os.path.exists(also):
+            for other in open(also).read().split():
+                ev2 = os.path.join(VERIF, "evidence", other + ".json")
+                bak2 = ev2 + ".seedbak"
+                if os.path.exists(ev2):
+                    shutil.copy(ev2, bak2)
+                r2 = sh("VERIF_REPO=%s timeout 7200 %s/check %s --tier %s" % (wt, VERIF, other, tier), cwd=VERIF)
+                if os.path.exists(bak2):
+                    shutil.move(bak2, ev2)
+                nv = sum(1 for ln in r2.stdout.splitlines() if ln.startswith("VIOLATION"))
+                res.setdefault("other", {})[other] = {"exit": r2.returncode, "violations": nv}
+                if r2.returncode == 1 and nv > 0:
+                    res["detected"] = True
+                    res["detected_by"] = other
+                    break
         if os.path.exists(bak):
             shutil.move(bak, ev)
     finally:
